@@ -233,7 +233,9 @@ def runOps (fields : List String) : String × String :=
       let pobs := if proj.isEmpty then [] else proj.splitOn " "
       let df := deliveredOf ops fobs
       let dp := deliveredOf pops pobs
-      let f19 := sublexThenFilter ops fobs
+      -- (the finding is attributed only when the implementation behaves exactly as the model of
+      -- the pinned code does; a different behaviour on such a history is a violation of its own)
+      let f19 := sublexThenFilter ops fobs && impl == mo
       let r1 := if df == dp then [] else
         [(if f19 then "C05: F19-sublex-mark-then-filter-change " else "C05: ") ++
           "delivered tokens differ from the advance-only history: " ++ " ".intercalate df ++ " vs " ++ " ".intercalate dp]
